@@ -20,7 +20,7 @@ def _str_to_date(self: DrillGenerator, expression: exp.StrToDate) -> str:
     this = self.sql(expression, "this")
     time_format = self.format_time(expression)
     if time_format == Drill.DATE_FORMAT:
-        return self.sql(exp.cast(this, exp.DType.DATE))
+        return self.sql(exp.cast(expression.this, exp.DType.DATE))
     return self.func("TO_DATE", this, time_format)
 
 
